@@ -139,3 +139,15 @@ Theorem C13_source_with_suffix : forall (B : backend) (u : url) (sfx : str) (kq 
   gen_with_suffix B u sfx kq kf = with_suffix B u sfx kq kf.
 Proof. exact gen_with_suffix_ok. Qed.
 Print Assumptions C13_source_with_suffix.
+
+(** Tie to the source by translation: URL._make_child (behind "/" and joinpath) - the loop
+    [for idx, path in enumerate(reversed(paths))] with its two accumulators, the rejection of
+    a leading "/", the removal of the trailing empty segment of all but the last argument, the
+    merge with the old path, the injected root under an authority and the dot-segment
+    normalisation - is re-read from the working tree on every run and proved equal to the
+    model function on every URL, argument list and value of encoded. *)
+From Yarl Require Import Model.Url Model.GenTypes Generated.UrlGen Proofs.GenChildProofs.
+Theorem C13_source_make_child : forall (B : backend) (u : url) (paths : list str) (encoded : bool),
+  gen_make_child B u paths encoded = make_child B u paths encoded.
+Proof. exact gen_make_child_ok. Qed.
+Print Assumptions C13_source_make_child.
